@@ -338,7 +338,25 @@ fn stress(ctx: &Ctx, out: &mut Outcome, run_seed: u64, r: &mut Rng) {
     let mut it = incoming.into_iter();
     let tag = r.next_u64();
     let mut idx = 0u64;
+    let mut tiny = Rng::new(run_seed ^ 0x71_4E59);
     for _t in 0..ticks {
+        // many tiny messages in one tick (own random stream): the aggregation has to budget the varints of every
+        // message id and length, whatever their width at the seeded counter magnitude
+        // (not at the seeded magnitude just below 2^62: a few hundred more ids would leave what a varint can carry -
+        // 2^62 messages on one channel are out of any session's reach, the seeding is what brings the counter there)
+        if tiny.chance(1, 3) && id_mag < (1 << 61) {
+            let ch = tiny.pick(&chans).id;
+            let top = *tiny.pick(&[0usize, 1, 30, 60, 100]);
+            for _ in 0..tiny.range(30, 400) {
+                let len = tiny.urange(0, top);
+                if c.can_send_message(ch, len) {
+                    c.send_message(ch, Bytes::from(payload::make(0, 0, ch, 0, idx, len, tag)));
+                    idx += 1;
+                }
+            }
+            out.count("stress_ticks_with_many_tiny_messages");
+            hist.push(format!("send ch{} many tiny messages (0..={} bytes)", ch, top));
+        }
         // submissions around the packing threshold
         let n = r.range(1, 3);
         for _ in 0..n {
